@@ -195,6 +195,24 @@ pub fn run(tier: &str, seed: u64) -> Report {
             }
         }
     }
+    // (1a) all strings of length <= 3 (thorough: 4) over the 13 letters plus the separators and quotes a packed or joined
+    // representation of the reserved list might contain (",sub" / "ss," inside "iss,sub,aud,..."; "|", ";", ":", quotes ...)
+    let alpha2: Vec<char> = "isubadexpnftj,;|: .\t\n/-_\"'[]{}".chars().collect();
+    let k2 = alpha2.len();
+    for len in 1..=(if thorough { 4usize } else { 3 }) {
+        for mut idx in 0..k2.pow(len as u32) {
+            let mut s = String::new();
+            for _ in 0..len {
+                s.push(alpha2[idx % k2]);
+                idx /= k2;
+            }
+            if !s.chars().any(|c| !c.is_ascii_lowercase()) {
+                continue; // pure letter strings are covered above / below
+            }
+            let form = (cases.len() % 3) as u8;
+            cases.push(Case::Key { key: s, form, class: "exhaustive-with-separators".into() });
+        }
+    }
     // (1b) ALL lower-case ASCII strings of length 1..=3 (18 278 keys: every three-letter name a maintainer might think of reserving)
     for len in 1..=3usize {
         for mut idx in 0..26usize.pow(len as u32) {
@@ -369,4 +387,4 @@ pub fn replay(case: &Value) -> Report {
     r
 }
 
-pub const RULE: &str = "CustomClaim::try_from: ALL strings of length 0..=4 over the 13 letters of the reserved keys plus 'E', space and NUL (69 905 keys) x the three constructor forms (&str, (&str,T), (String,T)); ALL 18 278 lower-case ASCII strings of length 1..3; a dictionary of 75 names from neighbouring specifications (kid, wpk, typ, nonce, scope, email ...) x six forms; ~50 decorated variants (case, whitespace, NUL, zero-width, homoglyphs, reversed, truncated, extended, and three-character look-alikes under narrowing to 7/8/16 bits or under (a<<16|b<<8|c) bit-packing) of each of the seven keys x six forms/value types; 20 000 (thorough 2 000 000) random Unicode keys; oracle: fails with the reserved-key error iff the key is literally one of the seven, otherwise succeeds keeping key and value. Time constructors (ExpirationClaim, NotBeforeClaim, IssuedAtClaim x &str/String): 13 instants x UTC offsets -23:59..+23:59 (every 7th plus the extremes; thorough: all) x 0..9 fractional digits, 'Z' and '-00:00' forms must be accepted and kept verbatim (also read back through a built token); strings outside a deliberately broad recogniser of ISO 8601 date prefixes (optional sign + >= 4 digits) must be refused; lenient renderings and possibly-date strings are recorded without verdict. distinct_nontrivial = distinct (class, form/constructor, key or text shape) tuples";
+pub const RULE: &str = "CustomClaim::try_from: ALL strings of length 0..=4 over the 13 letters of the reserved keys plus 'E', space and NUL (69 905 keys) x the three constructor forms (&str, (&str,T), (String,T)); ALL strings of length 1..3 (thorough 4) over those 13 letters plus 19 separator / quote characters (, ; | : . space TAB LF / - _ quotes brackets braces: what a joined or packed representation of the reserved list contains); ALL 18 278 lower-case ASCII strings of length 1..3; a dictionary of 75 names from neighbouring specifications (kid, wpk, typ, nonce, scope, email ...) x six forms; ~50 decorated variants (case, whitespace, NUL, zero-width, homoglyphs, reversed, truncated, extended, and three-character look-alikes under narrowing to 7/8/16 bits or under (a<<16|b<<8|c) bit-packing) of each of the seven keys x six forms/value types; 20 000 (thorough 2 000 000) random Unicode keys; oracle: fails with the reserved-key error iff the key is literally one of the seven, otherwise succeeds keeping key and value. Time constructors (ExpirationClaim, NotBeforeClaim, IssuedAtClaim x &str/String): 13 instants x UTC offsets -23:59..+23:59 (every 7th plus the extremes; thorough: all) x 0..9 fractional digits, 'Z' and '-00:00' forms must be accepted and kept verbatim (also read back through a built token); strings outside a deliberately broad recogniser of ISO 8601 date prefixes (optional sign + >= 4 digits) must be refused; lenient renderings and possibly-date strings are recorded without verdict. distinct_nontrivial = distinct (class, form/constructor, key or text shape) tuples";
